@@ -298,11 +298,19 @@ class FilterbankBlock(BaseBlock):
         delays = self.header.get_dmdelays(dm, ref_freq=ref_freq)
         if only_valid_samples:
             new_ar = kernels.roll_block_valid(self.data, -delays)
+            # The valid region begins after the samples that leading channels lack
+            lead = max(0, -int(np.min(delays)))
         else:
             new_ar = kernels.roll_block(self.data, -delays)
+            lead = 0
         return FilterbankBlock(
             new_ar,
-            self.header.new_header({"nsamples": new_ar.shape[1]}),
+            self.header.new_header(
+                {
+                    "nsamples": new_ar.shape[1],
+                    "tstart": self.header.mjd_after_nsamps(lead),
+                },
+            ),
             dm,
         )
 
@@ -338,11 +346,20 @@ class FilterbankBlock(BaseBlock):
         dm_delays = self.header.get_dmdelays(dm_arr, ref_freq=ref_freq)
         if only_valid_samples:
             new_ar = kernels.dmt_block_valid(self.data, -dm_delays)
+            # The valid region begins after the samples that leading channels lack
+            lead = max(0, -int(np.min(dm_delays)))
         else:
             new_ar = kernels.dmt_block(self.data, -dm_delays)
+            lead = 0
         return DMTBlock(
             new_ar,
-            self.header.new_header({"nchans": 1, "nsamples": new_ar.shape[1]}),
+            self.header.new_header(
+                {
+                    "nchans": 1,
+                    "nsamples": new_ar.shape[1],
+                    "tstart": self.header.mjd_after_nsamps(lead),
+                },
+            ),
             dm_arr,
         )
 
